@@ -923,6 +923,9 @@ def ellipsify(g, case):
         return case
     n = rng.choice([0, 1, 2, 2, 3])
     sizes = [rng.choice([1, 2, 2, 3] if n <= 2 else [1, 2]) for _ in range(n)]
+    orig = [l.size for e in exprs for l, _ in leaves(e) if isinstance(l, Ax) and l.name == x][0]
+    if orig == 1:
+        sizes = [1] * n  # a squeezable axis stays squeezable
     if case["op"] == "roll" and marked and not isinstance(case["opts"].get("shift"), int):
         return case
     anon = rng.random() < 0.25
